@@ -81,6 +81,7 @@ thread_local! {
     static SEQ_OVERRUN: std::cell::Cell<bool> = std::cell::Cell::new(false);
 }
 pub const UNBOUNDED: &str = "QXV-UNBOUNDED-SEQUENCE";
+pub const F14: &str = "F14-zero-length-tuple-consumes-nothing";
 
 /// `Vec<T>` whose visitor gives up (with a recognisable error) after more items than the
 /// per-case budget (input length + 16): every item of a sequence must consume input
@@ -318,6 +319,14 @@ pub fn check_dyn(c: &DynCase) -> Verdict {
         }
     };
     if dynde::overrun() {
+        if c.script.has_zero_length_tuple() {
+            // known finding F14: a zero-length tuple reads nothing; as the item type of a top-level
+            // sequence, or as a map value under a visitor that accepts repeated keys, nothing is ever consumed
+            let mut v = Verdict::pass(true);
+            v.known.push(F14);
+            v.classes.push("scripted-zero-length-tuple");
+            return v;
+        }
         return Verdict::fail(format!("the scripted visitor was driven through more than {} steps on an input of {} bytes: deserialization does not terminate | script {:?} | input {:?}", dyn_budget(c), c.input.len(), c.script, c.input));
     }
     let first_ok = {
@@ -375,6 +384,11 @@ pub fn check_bytes(c: &BytesCase) -> Verdict {
             let r = std::panic::catch_unwind(std::panic::AssertUnwindSafe(|| dynde::from_reader(script, std::io::BufReader::with_capacity(5, &bytes[..]))));
             match r {
                 Ok(r) => {
+                    if dynde::overrun() && script.has_zero_length_tuple() {
+                        let mut v = Verdict::pass(true);
+                        v.known.push(F14);
+                        return v;
+                    }
                     if dynde::overrun() {
                         return Verdict::fail(format!("the scripted visitor ran out of its step budget on {} bytes: deserialization does not terminate | script {:?} | input {:?}", bytes.len(), script, crate::engine::B::show(bytes)));
                     }
